@@ -187,11 +187,67 @@ Fixpoint split_tail (l : list tok) {struct l} : option (list tok * (N * N * N)) 
   | [] => None
   end.
 
+(* ------------------------------------------------------------------ the other methods of `Bytes` (round w7b)
+   Wire opcodes 19-34: every method of the `Bytes` trait at REGION level (Bytes<MemoryRegionAddress> for GuestRegionMmap,
+   mmap/mod.rs:189-300: each forwards to the region-wide slice, as_volatile_slice().unwrap().<same method>; write_obj /
+   read_obj are the provided methods bytes.rs:299-315 = write_slice / read_slice) and at GUEST-MEMORY level
+   (Bytes<GuestAddress>, guest_memory.rs:590-744, over a GuestMemoryMmap holding the one region: try_access finds the
+   region, hands the chunk min(rest of the region, count) to the region-level method, and stops at the end of the
+   region) that opcodes 0-18 do not drive (store / load: known finding F6b, suite C17xenfind).  Each takes exactly the
+   window of a BASIC operation (opcodes 0, 1, 11, 12, 16, 18) and touches the same bytes; the slice / object / exact
+   forms answer Err where the basic form reports a short count, and the guest level answers Err for an address at the
+   very end of the region where the region-wide slice still hands out an empty tail.  norm_op: the basic operation and
+   whether a completed basic operation is reported as Err.
+     19 R write_slice len=a  20 R read_slice  21 R write_obj::<[u8; a]>  22 R read_obj
+     23 R read_exact_volatile_from(&[u8] of a+b bytes, count=a)   24 R write_all_volatile_to(Vec, count=a)
+     25 G write  26 G read  27 G write_slice  28 G read_slice  29 G write_obj  30 G read_obj
+     31 G read_volatile_from(&[u8] of b >= a bytes, count=a)   32 G write_volatile_to(Vec, count=a)
+     33 G read_exact_volatile_from(&[u8] of a+b bytes, count=a)   34 G write_all_volatile_to(Vec, count=a) *)
+Definition norm_op (size : N) (x : xopc) : option (xopc * bool) :=
+  let off := x_off x in let a := x_a x in let b := x_b x in
+  let mk code a b := {| x_code := code; x_off := off; x_a := a; x_b := b; x_c := 0 |} in
+  (* the buffer does not fit: volatile_memory.rs:759-797 / guest_memory.rs:638-676 PartialBuffer *)
+  let partial := (0 <? a) && (off <? size) && (size - off <? a) in
+  (* guest level: no region holds the address (try_access: InvalidGuestAddress), the basic op still has its empty tail *)
+  let at_end := size =? off in
+  let code := x_code x in
+  if code <=? 18 then Some (x, false) else
+  match code with
+  | 19 | 21 | 27 | 29 => Some (mk 0 a 0, partial)
+  | 20 | 22 | 28 | 30 => Some (mk 1 a 0, partial)
+  | 25 => Some (mk 0 a 0, false)
+  | 26 => Some (mk 1 a 0, false)
+  | 23 => Some (mk 16 a b, false)
+  | 24 => Some (mk 18 a 0, false)
+  | 31 => if b <? a then None else Some (mk 11 a b, at_end)
+  | 32 => Some (mk 12 a 0, at_end)
+  | 33 => Some (mk 11 a (a + b), at_end || partial)
+  | 34 => Some (mk 12 a 0, at_end || partial)
+  | _ => None
+  end.
+Fixpoint norm_ops (size : N) (l : list xopc) {struct l} : option (list xopc * list bool) :=
+  match l with
+  | [] => Some ([], [])
+  | x :: r => match norm_op size x, norm_ops size r with
+              | Some (y, f), Some (ys, fs) => Some (y :: ys, f :: fs)
+              | _, _ => None end
+  end.
+Definition force_op (f : bool) (p : opobs) : opobs :=
+  if f && (p_r p =? 1) then {| p_r := 0; p_data := p_data p; p_live := p_live p; p_evs := p_evs p |} else p.
+Fixpoint force_err (fl : list bool) (os : list opobs) {struct os} : list opobs :=
+  match os, fl with
+  | p :: r, f :: fr => force_op f p :: force_err fr r
+  | _, _ => os
+  end.
+Definition force_err_obs (fl : list bool) (o : obs17x) : obs17x :=
+  {| ox_built := ox_built o; ox_ops := force_err fl (ox_ops o); ox_mapped_alive := ox_mapped_alive o;
+     ox_mapped_end := ox_mapped_end o; ox_live_end := ox_live_end o |}.
+
 Definition suite_C17xen (inp obs : list tok) : verdict :=
   match inp, obs with
   | TN md :: TN rkind :: TN size :: TN gbase :: TN page :: opt, TN built :: rest =>
-      match map_opt dec_xopc opt, split_tail rest with
-      | Some xs, Some (oo, (alive, mend, lend)) =>
+      match match map_opt dec_xopc opt with Some ws => norm_ops size ws | None => None end, split_tail rest with
+      | Some (xs, fl), Some (oo, (alive, mend, lend)) =>
           match xops_of xs, map_opt dec_op oo with
           | Some ops, Some oobs =>
               if (rkind <? 4) && (size <? 4294967296) && (gbase <? 1099511627776) && (page =? 4096)
@@ -200,7 +256,7 @@ Definition suite_C17xen (inp obs : list tok) : verdict :=
                             cx_size := size; cx_gbase := gbase; cx_page := page; cx_ops := xs |} in
                 let o := {| ox_built := built; ox_ops := oobs; ox_mapped_alive := alive;
                             ox_mapped_end := mend; ox_live_end := lend |} in
-                {| v_model := enc17x (run_C17xn c ops); v_ok := ok_C17xn c o; v_wellformed := true |}
+                {| v_model := enc17x (force_err_obs fl (run_C17xn c ops)); v_ok := ok_C17xn c o; v_wellformed := true |}
               else malformed
           | _, _ => malformed end
       | _, _ => malformed end
